@@ -172,6 +172,10 @@ func (w *vWorld) applyCred(q *vReq, cred map[string]interface{}) {
 			cn = "notauto"
 		}
 		leaf := w.roleCert(cn, vNetblocks())
+		if variant == "loopback_xff" {
+			// netblocks without 127.0.0.0/8: a local proxy (or anything else on the host) is not inside
+			leaf = w.roleCert(cn, vNetblocks()[:1])
+		}
 		if strings.HasPrefix(variant, "chain1") {
 			q.Chains = [][]*x509.Certificate{{leaf}}
 		} else {
@@ -181,6 +185,13 @@ func (w *vWorld) applyCred(q *vReq, cred map[string]interface{}) {
 			q.Remote = vInsideAddr
 		} else if variant == "outside_near" {
 			q.Remote = vOutsideNearAddr
+		} else if variant == "loopback_xff" {
+			q.Remote = "127.0.0.1:40000"
+			if q.Headers == nil {
+				q.Headers = map[string]string{}
+			}
+			q.Headers["X-Forwarded-For"] = "10.1.2.3"
+			q.Headers["X-Real-Ip"] = "10.1.2.3"
 		} else {
 			q.Remote = vOutsideAddr
 		}
@@ -198,7 +209,7 @@ func runC01(t *testing.T, cases []map[string]interface{}, ev *vEvents) {
 		s := newWorld(vWorldOpts{NoDB: true, Sealed: true})
 		for _, w := range []*vWorld{o, s} {
 			w.st.Config.Base.AutomationUsers = []string{"svc"}
-			w.st.Config.DenyTrustData.KeyDenyFPsshSha256 = []string{vFullFP(&vAttackerKey.PublicKey)}
+			w.st.Config.DenyTrustData.KeyDenyFPsshSha256 = vDenyList()
 		}
 		// the sealed world still needs a pool to build client chains against: use the open world's CA
 		s.pool = o.pool
@@ -258,6 +269,12 @@ func runC01(t *testing.T, cases []map[string]interface{}, ev *vEvents) {
 		p.open.Close()
 		p.sealed.Close()
 	}
+}
+
+// vDenyList: the revoked key among other entries, in the order an operator appends revocations (not sorted)
+func vDenyList() []string {
+	fp := vFullFP(&vAttackerKey.PublicKey)
+	return []string{"zzzz-later-in-any-order", fp, "0000-earlier-in-any-order", "SHA256:mmmmmmmmmmmmmmmmmmmmmmmmmmmmmmmmmmmmmmmmmmm"}
 }
 
 func vFullFP(pub interface{}) string {
